@@ -20,6 +20,8 @@ func valueRange(d DT) (int64, int64) {
 func genArithCase(rt *rapid.T, prop, op string, d DT, form, via, mode string, layouts []string) *EWCase {
 	shape := ewShape(rt)
 	lo, hi := valueRange(d)
+	cplxCodes = d.IsComplex() // complex operands get non-zero imaginary parts
+	defer func() { cplxCodes = false }()
 	c := &EWCase{Prop: prop, Fam: "arith", Op: op, DT: d.Name, Form: form, Via: via, Mode: mode}
 	c.A = genOpnd(rt, shape, rapid.SampledFrom(layouts).Draw(rt, "la"), lo, hi, 15, "a")
 	if form == "TT" {
